@@ -664,6 +664,29 @@ def gen_async_protocol_programs():
     return progs
 
 
+def gen_link_cycle_programs():
+    """A content address that is a symlink CYCLE (onto itself, or two addresses pointing at each other - what a botched
+    de-duplication leaves): every read and every extraction of it answers an error and returns - nothing follows links
+    without a bound."""
+    progs = []
+    d1, d2 = b"first of two entries", b"second of two entries"
+    cp1, cp2 = ("c0/" + L.content_rel(L.sri_of("sha256", x)) for x in (d1, d2))
+    st1 = sri_tok("sha256", d1)
+    for shape in ("self", "pair"):
+        ops = [w_oneshot("s", "sha256", b"cyc1", d1), w_oneshot("s", "sha256", b"cyc2", d2)]
+        if shape == "self":
+            ops += [f"del {cp1}", f"symlink {cp1} abs:{cp1}"]
+        else:
+            ops += [f"del {cp1}", f"del {cp2}", f"symlink {cp1} abs:{cp2}", f"symlink {cp2} abs:{cp1}"]
+        for fl in "sa":
+            ops += [f"read {fl} c0 {hx(b'cyc1')}", f"read_hash {fl} c0 {st1}", f"exists {fl} c0 {st1}", f"copy {fl} c0 {hx(b'cyc1')} out/c{fl}",
+                    f"copy_hash_unchecked {fl} c0 {st1} out/cu{fl}", f"hard_link {fl} c0 {hx(b'cyc1')} out/h{fl}"]
+        ops += [f"hard_link_hash_unchecked s c0 {st1} out/hu", f"hard_link_unchecked s c0 {hx(b'cyc1')} out/hk", f"hard_link_hash s c0 {st1} out/hh",
+                f"remove_hash s c0 {st1}", "list c0", f"read s c0 {hx(b'cyc2')}" if shape == "self" else "list c0"]
+        progs.append(Program(f"link-cycle-{shape}", ops, model=False, tags={"variety": ("cycle", shape)}))
+    return progs
+
+
 def gen_stray_root_programs():
     """Things in the cache directory that the library did not put there - a regular file, a symlink, a FIFO-less
     selection of what `tar`, editors and users leave behind - and then the bulk operations: `clear`, a listing, a
